@@ -540,7 +540,8 @@ NoDef == D3("none", "default", "default", "prim")
 
 (* element kinds: "param" one parameter; "url" base URL x template x primitive path value (+ configured header);   *)
 (* "body" media type x value                                                                                           *)
-Bases == 1..7       \* concretised by the driver: "", "/", "/api", "/api/", "/api/v1", servers-derived "/srv", call-time base_url
+Bases == 1..8       \* concretised by the driver: "", "/", "/api", "/api/", "/api/v1", servers-derived "/srv", call-time base_url,
+                    \* and a host-less base URL "/api" of an in-process (WSGI / ASGI) application
 Tmpls == 1..3       \* "/x/{p}", "/x/{p}/y", "/{p}"
 UrlVals == {VPrim(p) : p \in {PStr(s) : s \in Strs(1) \cup Extra} \cup {PInt(0)}} \ {VPrim(PStr(<<>>))}
 JsonVals(r) == {VPrim(p) : p \in {PStr(s) : s \in Strs(1) \cup Extra} \cup Specials} \cup ArrVals(r) \cup ObjVals(r)
@@ -557,7 +558,16 @@ UrlEls == {El("url", PathPrim, v, b, t, "none") : v \in UrlVals, b \in Bases, t 
 (* file-like field).  Only the Content-Type's media type is judged for them; the multipart encoding itself is outside the fragment *)
 AllStr(v) == \A i \in 1..Len(v.items) : v.items[i].t = "str"
 MultipartVals(r) == {v \in {VObj(<<kA>>, <<x>>) : x \in ItemsA} \cup {VObj(<<kA, kB>>, p) : p \in ItemPairs(r)} : AllStr(v)}
+(* Media types whose payload encoding is outside the fragment (YAML, XML, binary, a non-object value sent as multipart): only the   *)
+(* Content-Type clause is judged for them.  A structured-syntax suffix (+json) is JSON; a form may be generated as a list of          *)
+(* one-pair objects ("form-list": the driver presents {a: x, b: y} as [{a: x}, {b: y}]) and must arrive as the same pairs.             *)
+CtypeOnlyMedia == {"yaml", "xml", "binary", "multipart-raw"}
+SmallVals == {VPrim(PStr(s)) : s \in {<<97>>, <<97, 32, 97>>, <<233, 49>>}} \cup {VObj(<<kA>>, <<PStr(s)>>) : s \in {<<97>>, <<97, 32, 97>>}}
 BodyEls(n, r) == {El("body", NoDef, v, 3, 0, "json") : v \in JsonVals(r)}
+                    \cup {El("body", NoDef, v, 3, 0, "json-suffix") : v \in {w \in JsonVals(r) : Len(w.items) <= 1}}
+                    \cup {El("body", NoDef, v, 3, 0, m) : v \in SmallVals, m \in {"yaml", "xml"}}
+                    \cup {El("body", NoDef, v, 3, 0, m) : v \in {w \in SmallVals : w.k = "prim"}, m \in {"binary", "multipart-raw"}}
+                    \cup {El("body", NoDef, VObj(<<kA, kB>>, p), 3, 0, "form-list") : p \in {q \in ItemPairs(r) : q[1].t \in {"str", "int"} /\ q[2].t \in {"str", "int"}}}
                     \cup {El("body", NoDef, v, 3, 0, m) : v \in MultipartVals(r), m \in {"multipart", "multipart-file"}}
                     \cup {El("body", NoDef, v, 3, 0, "form") : v \in ObjVals(r)}
                     \cup {El("body", NoDef, v, 3, 0, "text") : v \in TextVals(n)}
